@@ -1,9 +1,7 @@
 /-
-No panic under a single I/O fault (model `SerfModel.SnapshotFault`), unless the
-operation that failed is compact()'s remove / rename / reopen of the snapshot file.
-Invariant: the fault is consumed at most once (`K`), and as long as the failed
-operation is not one of those three the snapshotter has not panicked and holds a
-bufio writer (`J`).
+No panic under a single I/O fault (model `SerfModel.SnapshotFault`, the code since
+e2c64f9: compact() never sets its handles to nil).  Invariant `P`: the snapshotter holds
+a bufio writer and has not panicked.  No operation is excluded any more.
 -/
 import SerfModel.Model.SnapshotFault
 namespace SerfProofs.SnapshotFault
@@ -11,244 +9,146 @@ open SerfModel SerfModel.Snapshot SerfModel.SnapshotFault
 
 attribute [local irreducible] lastSeenOf
 
-/-- the fault is consumed at most once -/
-def K (st : FSnap) : Prop := st.failed = none ∨ ∃ k, st.fault = some k ∧ k < st.nops
+/-- the code keeps its handles (current shape), a writer is installed, no panic so far -/
+def P (st : FSnap) : Prop := st.nilOnSwap = false ∧ st.writer = true ∧ st.panicked = false
 
-/-- unless the failed operation is one of the bad three: no panic and a writer -/
-def J (st : FSnap) : Prop := badFault st.failed = false → st.panicked = false ∧ st.writer = true
+theorem P_of_fields {st st' : FSnap} (h : P st) (h1 : st'.nilOnSwap = st.nilOnSwap) (h2 : st'.writer = st.writer)
+    (h3 : st'.panicked = st.panicked) : P st' := ⟨h1.trans h.1, h2.trans h.2.1, h3.trans h.2.2⟩
 
-def I (st : FSnap) : Prop := K st ∧ J st
+theorem doOpW_fields (st : FSnap) (op : FsOp) (w : Bool) :
+    (doOpW st op w).1.nilOnSwap = st.nilOnSwap ∧ (doOpW st op w).1.writer = st.writer ∧
+      (doOpW st op w).1.panicked = st.panicked := by
+  unfold doOpW
+  split
+  · exact ⟨rfl, rfl, rfl⟩
+  · split <;> exact ⟨rfl, rfl, rfl⟩
 
-/-- `st'` differs from `st` by operations that do not touch the handles: writer and
-panic flag unchanged, and the failed operation is unchanged or newly set to a harmless one -/
-def Quiet (st st' : FSnap) : Prop :=
-  st'.writer = st.writer ∧ st'.panicked = st.panicked ∧ K st' ∧
-    (st'.failed = st.failed ∨ (st.failed = none ∧ badFault st'.failed = false))
+theorem doOpW_P (st : FSnap) (op : FsOp) (w : Bool) (h : P st) : P (doOpW st op w).1 :=
+  P_of_fields h (doOpW_fields st op w).1 (doOpW_fields st op w).2.1 (doOpW_fields st op w).2.2
 
-theorem Quiet.refl {st : FSnap} (h : K st) : Quiet st st := ⟨rfl, rfl, h, Or.inl rfl⟩
+theorem doOp_P (st : FSnap) (op : FsOp) (h : P st) : P (doOp st op).1 := doOpW_P st op true h
 
-theorem Quiet.trans {a b c : FSnap} (h1 : Quiet a b) (h2 : Quiet b c) : Quiet a c := by
-  refine ⟨h2.1.trans h1.1, h2.2.1.trans h1.2.1, h2.2.2.1, ?_⟩
-  rcases h1.2.2.2 with e1 | ⟨e1, b1⟩
-  · rcases h2.2.2.2 with e2 | ⟨e2, b2⟩
-    · exact Or.inl (e2.trans e1)
-    · exact Or.inr ⟨e1 ▸ e2, b2⟩
-  · rcases h2.2.2.2 with e2 | ⟨e2, b2⟩
-    · exact Or.inr ⟨e1, e2 ▸ b1⟩
-    · exact Or.inr ⟨e1, b2⟩
-
-theorem J_of_quiet {st st' : FSnap} (hq : Quiet st st') (hj : J st) : J st' := by
-  intro hb
-  rcases hq.2.2.2 with e | ⟨e, _⟩
-  · have := hj (e ▸ hb)
-    exact ⟨hq.2.1.trans this.1, hq.1.trans this.2⟩
-  · have := hj (by rw [e]; rfl)
-    exact ⟨hq.2.1.trans this.1, hq.1.trans this.2⟩
-
-theorem I_of_quiet {st st' : FSnap} (hq : Quiet st st') (h : I st) : I st' := ⟨hq.2.2.1, J_of_quiet hq h.2⟩
-
-/-- what one operation does -/
-theorem doOp_cases (st : FSnap) (op : FsOp) (hk : K st) :
-    (doOp st op).1.writer = st.writer ∧ (doOp st op).1.panicked = st.panicked ∧
-    (doOp st op).1.sticky = st.sticky ∧ (doOp st op).1.fh = st.fh ∧ (doOp st op).1.s = st.s ∧
-    (doOp st op).1.attempted = st.attempted ∧ K (doOp st op).1 ∧
-    (((doOp st op).2 = true ∧ (doOp st op).1.failed = st.failed) ∨
-     ((doOp st op).2 = false ∧ st.failed = none ∧ (doOp st op).1.failed = some op)) := by
-  unfold doOp
-  by_cases hf : st.fault = some st.nops
-  · rw [if_pos hf]
-    have hnone : st.failed = none := by
-      rcases hk with h | ⟨k, hk1, hk2⟩
-      · exact h
-      · rw [hf] at hk1; cases hk1; omega
-    refine ⟨rfl, rfl, rfl, rfl, rfl, rfl, Or.inr ⟨st.nops, hf, by simp⟩, Or.inr ⟨rfl, hnone, rfl⟩⟩
-  · rw [if_neg hf]
-    refine ⟨rfl, rfl, rfl, rfl, rfl, rfl, ?_, Or.inl ⟨rfl, rfl⟩⟩
-    rcases hk with h | ⟨k, hk1, hk2⟩
-    · exact Or.inl h
-    · exact Or.inr ⟨k, hk1, by simp; omega⟩
-
-theorem doOp_quiet (st : FSnap) (op : FsOp) (hk : K st) (hop : badFault (some op) = false) :
-    Quiet st (doOp st op).1 := by
-  obtain ⟨h1, h2, _, _, _, _, h7, h8⟩ := doOp_cases st op hk
-  refine ⟨h1, h2, h7, ?_⟩
-  rcases h8 with ⟨_, e⟩ | ⟨_, e1, e2⟩
-  · exact Or.inl e
-  · exact Or.inr ⟨e1, by rw [e2]; exact hop⟩
-
-theorem doWrites_quiet (p : Path) (ws : List Bytes) : ∀ st : FSnap, K st → Quiet st (doWrites st p ws).1 := by
+theorem doWrites_P (p : Path) (w : Bool) (ws : List Bytes) : ∀ st : FSnap, P st → P (doWrites st p w ws).1 := by
   induction ws with
-  | nil => intro st hk; exact Quiet.refl hk
-  | cons w ws ih =>
-    intro st hk
-    have h1 := doOp_quiet st (.write p w) hk rfl
+  | nil => intro st h; exact h
+  | cons x xs ih =>
+    intro st h
     simp only [doWrites]
     split
-    · exact h1.trans (ih _ h1.2.2.1)
-    · exact h1
+    · exact ih _ (doOpW_P st _ w h)
+    · exact doOpW_P st _ w h
 
-/-- a record update that leaves the five relevant fields alone -/
-theorem Quiet.of_fields {st st' : FSnap} (hk : K st) (h1 : st'.writer = st.writer) (h2 : st'.panicked = st.panicked)
-    (h3 : st'.failed = st.failed) (h4 : st'.fault = st.fault) (h5 : st'.nops = st.nops) : Quiet st st' := by
-  refine ⟨h1, h2, ?_, Or.inl h3⟩
-  unfold K at hk ⊢
-  rw [h3, h4, h5]; exact hk
-
-theorem fAppendBytes_inv (st : FSnap) (l : Bytes) (h : I st) : I (fAppendBytes st l).1 := by
+theorem fAppendBytes_P (st : FSnap) (l : Bytes) (h : P st) : P (fAppendBytes st l).1 := by
   unfold fAppendBytes
-  by_cases hw : st.writer = true
-  · simp only [hw, Bool.not_true, Bool.false_eq_true, ↓reduceIte]
+  simp only [h.2.1, Bool.not_true, Bool.false_eq_true, ↓reduceIte]
+  split
+  · exact h
+  · have q1 := doWrites_P .main (!st.fhClosed) (bufWrite st.s.buf l).2 st h
+    generalize doWrites st .main (!st.fhClosed) (bufWrite st.s.buf l).2 = r at q1 ⊢
     split
-    · exact h
-    · have q1 := doWrites_quiet .main (bufWrite st.s.buf l).2 st h.1
-      generalize doWrites st .main (bufWrite st.s.buf l).2 = r at q1 ⊢
-      split
-      · exact I_of_quiet (q1.trans (Quiet.of_fields q1.2.2.1 rfl rfl rfl rfl rfl)) h
+    · exact P_of_fields q1 rfl rfl rfl
+    · split
       · split
-        · split
-          · exact I_of_quiet (q1.trans (Quiet.of_fields q1.2.2.1 rfl rfl rfl rfl rfl)) h
-          · have hk2 : K ({ r.1 with s := { ({ r.1 with s := { r.1.s with buf := (bufWrite st.s.buf l).1 } } : FSnap).s with flushDue := false } } : FSnap) :=
-              (Quiet.of_fields q1.2.2.1 rfl rfl rfl rfl rfl).2.2.1
-            have q0 : Quiet st ({ r.1 with s := { ({ r.1 with s := { r.1.s with buf := (bufWrite st.s.buf l).1 } } : FSnap).s with flushDue := false } } : FSnap) :=
-              q1.trans (Quiet.of_fields q1.2.2.1 rfl rfl rfl rfl rfl)
-            have q2 := doOp_quiet _ (.write .main (bufWrite st.s.buf l).1) hk2 rfl
-            generalize doOp _ (FsOp.write Path.main _) = r2 at q2 ⊢
-            split
-            · exact I_of_quiet ((q0.trans q2).trans (Quiet.of_fields q2.2.2.1 rfl rfl rfl rfl rfl)) h
-            · exact I_of_quiet ((q0.trans q2).trans (Quiet.of_fields q2.2.2.1 rfl rfl rfl rfl rfl)) h
-        · exact I_of_quiet (q1.trans (Quiet.of_fields q1.2.2.1 rfl rfl rfl rfl rfl)) h
-  · have hw' : st.writer = false := by cases hh : st.writer <;> simp_all
-    simp only [hw', Bool.not_false, ↓reduceIte]
-    refine ⟨h.1, ?_⟩
-    intro hb
-    have := (h.2 hb).2
-    rw [hw'] at this; cases this
+        · exact P_of_fields q1 rfl rfl rfl
+        · have q0 : P ({ r.1 with s := { ({ r.1 with s := { r.1.s with buf := (bufWrite st.s.buf l).1 } } : FSnap).s with flushDue := false } } : FSnap) :=
+            P_of_fields q1 rfl rfl rfl
+          have q2 := doOpW_P _ (.write .main (bufWrite st.s.buf l).1) (!r.1.fhClosed) q0
+          generalize doOpW _ (FsOp.write Path.main _) _ = r2 at q2 ⊢
+          split
+          · exact P_of_fields q2 rfl rfl rfl
+          · exact P_of_fields q2 rfl rfl rfl
+      · exact P_of_fields q1 rfl rfl rfl
 
-theorem fCompactFront_quiet (st : FSnap) (lines : List Bytes) (hk : K st) : Quiet st (fCompactFront st lines).1 := by
+theorem fCompactFront_P (st : FSnap) (lines : List Bytes) (h : P st) : P (fCompactFront st lines).1 := by
   unfold fCompactFront
-  have q1 := doOp_quiet st (.openTrunc .tmp) hk rfl
+  have q1 := doOp_P st (.openTrunc .tmp) h
   generalize doOp st (.openTrunc .tmp) = r1 at q1 ⊢
   simp only
   split
   · exact q1
-  · have q2 := doWrites_quiet .tmp (bufWriteAll [] lines).2 r1.1 q1.2.2.1
-    generalize doWrites r1.1 .tmp (bufWriteAll [] lines).2 = r2 at q2 ⊢
+  · have q2 := doWrites_P .tmp true (bufWriteAll [] lines).2 r1.1 q1
+    generalize doWrites r1.1 .tmp true (bufWriteAll [] lines).2 = r2 at q2 ⊢
     split
-    · exact (q1.trans q2).trans (doOp_quiet _ _ q2.2.2.1 rfl)
-    · have q3 : Quiet r2.1 (if (bufWriteAll [] lines).1 = [] then (r2.1, true) else doOp r2.1 (.write .tmp (bufWriteAll [] lines).1)).1 := by
+    · exact doOp_P _ _ q2
+    · have q3 : P (if (bufWriteAll [] lines).1 = [] then (r2.1, true) else doOp r2.1 (.write .tmp (bufWriteAll [] lines).1)).1 := by
         split
-        · exact Quiet.refl q2.2.2.1
-        · exact doOp_quiet _ _ q2.2.2.1 rfl
+        · exact q2
+        · exact doOp_P _ _ q2
       generalize (if (bufWriteAll [] lines).1 = [] then (r2.1, true) else doOp r2.1 (.write .tmp (bufWriteAll [] lines).1)) = r3 at q3 ⊢
       split
-      · exact (q1.trans q2).trans q3
-      · have q4 := doOp_quiet r3.1 (.sync .tmp) q3.2.2.1 rfl
+      · exact q3
+      · have q4 := doOp_P r3.1 (.sync .tmp) q3
         generalize doOp r3.1 (.sync .tmp) = r4 at q4 ⊢
         split
-        · exact (((q1.trans q2).trans q3).trans q4).trans (doOp_quiet _ _ q4.2.2.1 rfl)
-        · exact (((q1.trans q2).trans q3).trans q4).trans (doOp_quiet _ _ q4.2.2.1 rfl)
+        · exact doOp_P _ _ q4
+        · exact doOp_P _ _ q4
 
-/-- after a failing bad operation the invariant holds vacuously -/
-theorem I_of_bad {st : FSnap} (hk : K st) (hb : badFault st.failed = true) : I st :=
-  ⟨hk, fun h => by rw [hb] at h; cases h⟩
+theorem fOldFlush_P (st : FSnap) (h : P st) : P (fOldFlush st) := by
+  unfold fOldFlush
+  split
+  · exact h
+  · have q := doOpW_P st (.write .main st.s.buf) (!st.fhClosed) h
+    generalize doOpW st (.write .main st.s.buf) (!st.fhClosed) = r at q ⊢
+    simp only
+    split
+    · exact P_of_fields q rfl rfl rfl
+    · exact P_of_fields q rfl rfl rfl
 
-theorem fCompactSwap_inv (st : FSnap) (total : Nat) (h : I st) : I (fCompactSwap st total).1 := by
+theorem fOldClose_P (st : FSnap) (h : P st) : P (fOldClose false st) := by
+  unfold fOldClose
+  simp only [Bool.false_eq_true, ↓reduceIte]
+  refine P_of_fields (st := if st.fh = true then (doOp st (.close .main)).1 else st) ?_ rfl rfl rfl
+  split
+  · exact doOp_P _ _ h
+  · exact h
+
+theorem fSwapTail_P (r7 : FSnap) (total : Nat) (q7 : P r7) : P (fSwapTail r7 total).1 := by
+  unfold fSwapTail
+  have q8 := doOpW_P r7 (.remove .main) r7.mainExists q7
+  generalize doOpW r7 (.remove .main) r7.mainExists = r8 at q8 ⊢
+  simp only
+  split
+  · exact q8
+  · have q8' : P ({ r8.1 with mainExists := false } : FSnap) := P_of_fields q8 rfl rfl rfl
+    have q9 := doOp_P _ (.rename .tmp .main) q8'
+    generalize doOp ({ r8.1 with mainExists := false } : FSnap) (.rename .tmp .main) = r9 at q9 ⊢
+    split
+    · exact q9
+    · have q9' : P ({ r9.1 with mainExists := true } : FSnap) := P_of_fields q9 rfl rfl rfl
+      have q10 := doOp_P _ (.openAppend .main) q9'
+      generalize doOp ({ r9.1 with mainExists := true } : FSnap) (.openAppend .main) = r10 at q10 ⊢
+      split
+      · exact q10
+      · exact ⟨q10.1, rfl, q10.2.2⟩
+
+theorem fCompactSwap_P (st : FSnap) (total : Nat) (h : P st) : P (fCompactSwap st total).1 := by
   unfold fCompactSwap
-  by_cases hw : st.writer = true
-  · simp only [hw, Bool.not_true, Bool.false_eq_true, ↓reduceIte]
-    -- old writer flushed (result ignored), handles dropped
-    have q6 : Quiet st (if (st.sticky || decide (st.s.buf = [])) = true then st else (doOp st (.write .main st.s.buf)).1) := by
-      split
-      · exact Quiet.refl h.1
-      · exact doOp_quiet _ _ h.1 rfl
-    generalize (if (st.sticky || decide (st.s.buf = [])) = true then st else (doOp st (.write .main st.s.buf)).1) = r6 at q6 ⊢
-    -- from here on the writer is nil; track K and the failed operation by hand
-    have k6 : K ({ r6 with writer := false, sticky := false } : FSnap) := q6.2.2.1
-    have hclose : ∀ x : FSnap, K x → K (if x.fh = true then (doOp x (.close .main)).1 else x) ∧
-        ((if x.fh = true then (doOp x (.close .main)).1 else x).failed = x.failed ∨
-          (x.failed = none ∧ badFault (if x.fh = true then (doOp x (.close .main)).1 else x).failed = false)) ∧
-        (if x.fh = true then (doOp x (.close .main)).1 else x).panicked = x.panicked := by
-      intro x hx
-      split
-      · have := doOp_quiet x (.close .main) hx rfl
-        exact ⟨this.2.2.1, this.2.2.2, this.2.1⟩
-      · exact ⟨hx, Or.inl rfl, rfl⟩
-    obtain ⟨k7, f7, p7⟩ := hclose _ k6
-    generalize (if ({ r6 with writer := false, sticky := false } : FSnap).fh = true then
-        (doOp ({ r6 with writer := false, sticky := false } : FSnap) (.close .main)).1
-        else ({ r6 with writer := false, sticky := false } : FSnap)) = r7 at k7 f7 p7 ⊢
-    have k7' : K ({ r7 with fh := false } : FSnap) := k7
-    -- the three bad operations
-    obtain ⟨_, p8, _, _, _, _, k8, c8⟩ := doOp_cases ({ r7 with fh := false } : FSnap) (.remove .main) k7'
-    generalize doOp ({ r7 with fh := false } : FSnap) (.remove .main) = r8 at p8 k8 c8 ⊢
-    rcases c8 with ⟨ok8, e8⟩ | ⟨no8, _, e8⟩
-    · simp only [ok8, Bool.not_true, Bool.false_eq_true, ↓reduceIte]
-      obtain ⟨_, p9, _, _, _, _, k9, c9⟩ := doOp_cases r8.1 (.rename .tmp .main) k8
-      generalize doOp r8.1 (.rename .tmp .main) = r9 at p9 k9 c9 ⊢
-      rcases c9 with ⟨ok9, e9⟩ | ⟨no9, _, e9⟩
-      · simp only [ok9, Bool.not_true, Bool.false_eq_true, ↓reduceIte]
-        obtain ⟨_, p10, _, _, _, _, k10, c10⟩ := doOp_cases r9.1 (.openAppend .main) k9
-        generalize doOp r9.1 (.openAppend .main) = r10 at p10 k10 c10 ⊢
-        rcases c10 with ⟨ok10, e10⟩ | ⟨no10, _, e10⟩
-        · simp only [ok10, Bool.not_true, Bool.false_eq_true, ↓reduceIte]
-          -- success: new handles
-          refine ⟨k10, ?_⟩
-          intro hb
-          have hfailed : r10.1.failed = r7.failed := e10.trans (e9.trans e8)
-          have hpan : r10.1.panicked = st.panicked := by
-            rw [p10, p9, p8]; exact p7.trans q6.2.1
-          have hbst : badFault st.failed = false := by
-            have hb' : badFault r7.failed = false := hfailed ▸ hb
-            rcases f7 with e | ⟨e, _⟩
-            · have e' : r7.failed = r6.failed := e
-              rcases q6.2.2.2 with e2 | ⟨e2, _⟩
-              · rw [← e2, ← e']; exact hb'
-              · rw [e2]; rfl
-            · have e' : r6.failed = none := e
-              rcases q6.2.2.2 with e2 | ⟨e2, _⟩
-              · rw [← e2, e']; rfl
-              · rw [e2]; rfl
-          exact ⟨hpan.trans (h.2 hbst).1, rfl⟩
-        · simp only [no10, Bool.not_false, ↓reduceIte]
-          exact I_of_bad k10 (by rw [e10]; rfl)
-      · simp only [no9, Bool.not_false, ↓reduceIte]
-        exact I_of_bad k9 (by rw [e9]; rfl)
-    · simp only [no8, Bool.not_false, ↓reduceIte]
-      exact I_of_bad k8 (by rw [e8]; rfl)
-  · have hw' : st.writer = false := by cases hh : st.writer <;> simp_all
-    simp only [hw', Bool.not_false, ↓reduceIte]
-    refine ⟨h.1, ?_⟩
-    intro hb
-    have := (h.2 hb).2
-    rw [hw'] at this; cases this
+  simp only [h.2.1, h.1, Bool.not_true, Bool.false_eq_true, ↓reduceIte]
+  exact fSwapTail_P _ _ (fOldClose_P _ (fOldFlush_P st h))
 
-theorem fCompact_inv (st : FSnap) (h : I st) : I (fCompact st).1 := by
+theorem fCompact_P (st : FSnap) (h : P st) : P (fCompact st).1 := by
   unfold fCompact
-  have q := fCompactFront_quiet st (compactLines Order.id st.s) h.1
+  have q := fCompactFront_P st (compactLines Order.id st.s) h
   simp only
   generalize fCompactFront st (compactLines Order.id st.s) = r at q ⊢
   split
-  · exact I_of_quiet q h
-  · exact fCompactSwap_inv _ _ (I_of_quiet q h)
+  · exact q
+  · exact fCompactSwap_P _ _ q
 
-theorem fAppendLine_inv (st : FSnap) (l : Bytes) (h : I st) : I (fAppendLine st l).1 := by
+theorem fAppendLine_P (st : FSnap) (l : Bytes) (h : P st) : P (fAppendLine st l).1 := by
   unfold fAppendLine
-  have h1 := fAppendBytes_inv st l h
+  have h1 := fAppendBytes_P st l h
   generalize fAppendBytes st l = r at h1 ⊢
   simp only
   split
   · split
-    · exact fCompact_inv _ h1
+    · exact fCompact_P _ h1
     · exact h1
   · exact h1
 
-theorem I_congr {st st' : FSnap} (h : I st) (h1 : st'.writer = st.writer) (h2 : st'.panicked = st.panicked)
-    (h3 : st'.failed = st.failed) (h4 : st'.fault = st.fault) (h5 : st'.nops = st.nops) : I st' :=
-  I_of_quiet (Quiet.of_fields h.1 h1 h2 h3 h4 h5) h
-
-theorem fTryAppend_inv (st : FSnap) (l : Bytes) (h : I st) : I (fTryAppend st l) := by
+theorem fTryAppend_P (st : FSnap) (l : Bytes) (h : P st) : P (fTryAppend st l) := by
   unfold fTryAppend
-  have h1 := fAppendLine_inv st l h
+  have h1 := fAppendLine_P st l h
   generalize fAppendLine st l = r at h1 ⊢
   simp only
   split
@@ -256,16 +156,16 @@ theorem fTryAppend_inv (st : FSnap) (l : Bytes) (h : I st) : I (fTryAppend st l)
   · exact h1
   · split
     · exact h1
-    · exact fCompact_inv _ (I_congr h1 rfl rfl rfl rfl rfl)
+    · exact fCompact_P _ (P_of_fields h1 rfl rfl rfl)
 
-theorem fUpdateClock_inv (st : FSnap) (clk : Nat) (h : I st) : I (fUpdateClock st clk) := by
+theorem fUpdateClock_P (st : FSnap) (clk : Nat) (h : P st) : P (fUpdateClock st clk) := by
   unfold fUpdateClock
   simp only
   split
-  · exact fTryAppend_inv _ _ (I_congr h rfl rfl rfl rfl rfl)
+  · exact fTryAppend_P _ _ (P_of_fields h rfl rfl rfl)
   · exact h
 
-theorem fJoin_inv (ms : List (Name × Addr)) : ∀ st : FSnap, I st → I (fJoin st ms) := by
+theorem fJoin_P (ms : List (Name × Addr)) : ∀ st : FSnap, P st → P (fJoin st ms) := by
   induction ms with
   | nil => intro st h; exact h
   | cons p ms ih =>
@@ -274,9 +174,9 @@ theorem fJoin_inv (ms : List (Name × Addr)) : ∀ st : FSnap, I st → I (fJoin
     simp only [fJoin]
     split
     · exact h
-    · exact ih _ (fTryAppend_inv _ _ (I_congr h rfl rfl rfl rfl rfl))
+    · exact ih _ (fTryAppend_P _ _ (P_of_fields h rfl rfl rfl))
 
-theorem fGone_inv (ns : List Name) : ∀ st : FSnap, I st → I (fGone st ns) := by
+theorem fGone_P (ns : List Name) : ∀ st : FSnap, P st → P (fGone st ns) := by
   induction ns with
   | nil => intro st h; exact h
   | cons n ns ih =>
@@ -284,33 +184,26 @@ theorem fGone_inv (ns : List Name) : ∀ st : FSnap, I st → I (fGone st ns) :=
     simp only [fGone]
     split
     · exact h
-    · exact ih _ (fTryAppend_inv _ _ (I_congr h rfl rfl rfl rfl rfl))
+    · exact ih _ (fTryAppend_P _ _ (P_of_fields h rfl rfl rfl))
 
-theorem fFlush_inv (st : FSnap) (h : I st) : I (fFlush st) := by
+theorem fFlush_P (st : FSnap) (h : P st) : P (fFlush st) := by
   unfold fFlush
   split
   · exact h
   · split
-    · rename_i hw
-      refine ⟨h.1, ?_⟩
-      intro hb
-      have := (h.2 hb).2
-      simp [this] at hw
+    · rename_i hw; simp [h.2.1] at hw
     · split
       · exact h
-      · have q := doOp_quiet st (.write .main st.s.buf) h.1 rfl
-        generalize doOp st (.write .main st.s.buf) = r at q ⊢
+      · have q := doOpW_P st (.write .main st.s.buf) (!st.fhClosed) h
+        generalize doOpW st (.write .main st.s.buf) (!st.fhClosed) = r at q ⊢
         simp only
         split
-        · exact I_of_quiet (q.trans (Quiet.of_fields q.2.2.1 rfl rfl rfl rfl rfl)) h
-        · exact I_of_quiet (q.trans (Quiet.of_fields q.2.2.1 rfl rfl rfl rfl rfl)) h
+        · exact P_of_fields q rfl rfl rfl
+        · exact P_of_fields q rfl rfl rfl
 
-theorem doOp_inv (st : FSnap) (op : FsOp) (h : I st) (hop : badFault (some op) = false) : I (doOp st op).1 :=
-  I_of_quiet (doOp_quiet st op h.1 hop) h
-
-theorem fStep_inv (st : FSnap) (e : FEv) (h : I st) : I (fStep st e) := by
+theorem fStep_P (st : FSnap) (e : FEv) (h : P st) : P (fStep st e) := by
   cases e with
-  | recoveryTimePasses => exact I_congr h rfl rfl rfl rfl rfl
+  | recoveryTimePasses => exact P_of_fields h rfl rfl rfl
   | ev e =>
     simp only [fStep]
     split
@@ -321,71 +214,70 @@ theorem fStep_inv (st : FSnap) (e : FEv) (h : I st) : I (fStep st e) := by
         split
         · exact h
         · split
-          · exact fJoin_inv ms st h
-          · exact fUpdateClock_inv _ _ (fJoin_inv ms st h)
+          · exact fJoin_P ms st h
+          · exact fUpdateClock_P _ _ (fJoin_P ms st h)
       | gone ns clk =>
         simp only
         split
         · exact h
         · split
-          · exact fGone_inv ns st h
-          · exact fUpdateClock_inv _ _ (fGone_inv ns st h)
+          · exact fGone_P ns st h
+          · exact fUpdateClock_P _ _ (fGone_P ns st h)
       | memberOther clk =>
         simp only
         split
         · exact h
-        · exact fUpdateClock_inv _ _ h
+        · exact fUpdateClock_P _ _ h
       | user lt =>
         simp only
         split
         · exact h
         · split
           · exact h
-          · exact fTryAppend_inv _ _ (I_congr h rfl rfl rfl rfl rfl)
+          · exact fTryAppend_P _ _ (P_of_fields h rfl rfl rfl)
       | query lt =>
         simp only
         split
         · exact h
         · split
           · exact h
-          · exact fTryAppend_inv _ _ (I_congr h rfl rfl rfl rfl rfl)
-      | clockTick clk => exact fUpdateClock_inv _ _ h
+          · exact fTryAppend_P _ _ (P_of_fields h rfl rfl rfl)
+      | clockTick clk => exact fUpdateClock_P _ _ h
       | leave =>
         simp only
-        have h1 := fFlush_inv _ (fTryAppend_inv (leaveState st) (printLine .leave) (I_congr h rfl rfl rfl rfl rfl))
+        have h1 := fFlush_P _ (fTryAppend_P (leaveState st) (printLine .leave) (P_of_fields h rfl rfl rfl))
         generalize fFlush (fTryAppend (leaveState st) (printLine .leave)) = r at h1 ⊢
         split
         · exact h1
         · split
-          · exact doOp_inv _ _ h1 rfl
+          · exact doOp_P _ _ h1
           · exact h1
-      | timePasses => exact I_congr h rfl rfl rfl rfl rfl
-      | forceCompact => exact fCompact_inv st h
+      | timePasses => exact P_of_fields h rfl rfl rfl
+      | forceCompact => exact fCompact_P st h
 
-theorem fRun_inv (evs : List FEv) : ∀ st : FSnap, I st → I (fRun st evs) := by
+theorem fRun_P (evs : List FEv) : ∀ st : FSnap, P st → P (fRun st evs) := by
   induction evs with
   | nil => intro st h; exact h
-  | cons e es ih => intro st h; exact ih _ (fStep_inv st e h)
+  | cons e es ih => intro st h; exact ih _ (fStep_P st e h)
 
-theorem fShutdown_inv (st : FSnap) (clk : Nat) (h : I st) : I (fShutdown st clk) := by
+theorem fShutdown_P (st : FSnap) (clk : Nat) (h : P st) : P (fShutdown st clk) := by
   unfold fShutdown
   split
   · exact h
-  · have h1 := fFlush_inv _ (fUpdateClock_inv st clk h)
+  · have h1 := fFlush_P _ (fUpdateClock_P st clk h)
     simp only
     generalize fFlush (fUpdateClock st clk) = r at h1 ⊢
     split
     · exact h1
-    · have h2 : I (if r.fh = true then (doOp r (.sync .main)).1 else r) := by
+    · have h2 : P (if r.fh = true then (doOp r (.sync .main)).1 else r) := by
         split
-        · exact doOp_inv _ _ h1 rfl
+        · exact doOp_P _ _ h1
         · exact h1
       generalize (if r.fh = true then (doOp r (.sync .main)).1 else r) = r2 at h2 ⊢
       split
-      · exact doOp_inv _ _ h2 rfl
+      · exact doOp_P _ _ h2
       · exact h2
 
-theorem fInit_inv (rj : Bool) (mc : Nat) (fault : Option Nat) : I (fInit rj mc fault) :=
-  ⟨Or.inl rfl, fun _ => ⟨rfl, rfl⟩⟩
+theorem fInit_P (rj : Bool) (mc : Nat) (fault : Option Nat) : P (fInit rj mc fault) := ⟨rfl, rfl, rfl⟩
 
 end SerfProofs.SnapshotFault
